@@ -156,6 +156,19 @@ DSOK ==
     /\ Parse(PresentDDD(n)).st = "ok" /\ Parse(PresentDDD(n)).labels = n /\ Parse(PresentDDD(n)).fq
     /\ (HasEscUpper(PresentDDD(n), 1) <=> \E i \in 1..Len(n) : \E j \in 1..Len(n[i]) : n[i][j] >= 65 /\ n[i][j] <= 90)
     /\ ~HasEscUpper(Present(n), 1) \/ n = << <<193, 0, 46>>, <<99, 79, 109>> >>
+KeyEncOK ==
+  kind = "zone" =>
+    /\ RSAPublicKey(<<1, 0, 1>>, <<200, 7>>) = <<3, 1, 0, 1, 200, 7>>
+    /\ RSAPublicKey(<<3>>, <<200>>) = <<1, 3, 200>>
+    /\ Take(RSAPublicKey([i \in 1..256 |-> 1], <<9>>), 4) = <<0, 1, 0, 1>>
+    /\ ECPublicKey(<<5>>, <<1, 2, 3>>, 3) = <<0, 0, 5, 1, 2, 3>>
+    /\ SortRdata({<<2>>, <<1, 9>>, <<1>>}) = << <<1>>, <<1, 9>>, <<2>> >>
+    /\ LET f == [tc |-> 1, alg |-> 8, labels |-> 1, origttl |-> <<0, 0, 1, 44>>, exp |-> <<0, 0, 0, 2>>, inc |-> <<0, 0, 0, 1>>,
+                  keytag |-> 258, signer |-> << <<90>> >>]
+       IN RRSIGInput(f, << <<87>> >>, 1, << <<9, 9, 9, 9>>, <<1, 1, 1, 1>>, <<9, 9, 9, 9>> >>)
+            = <<0, 1, 8, 1, 0, 0, 1, 44, 0, 0, 0, 2, 0, 0, 0, 1, 1, 2, 1, 122, 0>>
+              \o <<1, 119, 0, 0, 1, 0, 1, 0, 0, 1, 44, 0, 4, 1, 1, 1, 1>>
+              \o <<1, 119, 0, 0, 1, 0, 1, 0, 0, 1, 44, 0, 4, 9, 9, 9, 9>>
 HexOK ==
   kind = "zone" =>
     /\ HexDec(<<48, 57, 97, 70, 102, 65>>) = <<9, 175, 250>>
